@@ -3,7 +3,8 @@
        about the code as it is now), (2) the property laws re-proved directly on the extracted text.
    Compiled in build/C12/gen.  A changed constant, formula, comparison or branch order breaks one of these. *)
 From Coq Require Import ZArith Reals Lra Lia Bool List String.
-From AV Require Import lib.Num lib.FloatMath model.C12_Base model.C12_Model proofs.C12_ISA proofs.C12_Proofs.
+From Coq Require PrimFloat.
+From AV Require Import lib.Num lib.FloatMath model.C12_Base model.C12_Model proofs.C12_ISA proofs.C12_Proofs proofs.C12_MEEM.
 From Gen Require C12_Extracted.
 Module X := C12_Extracted.
 Import ListNotations.
@@ -169,3 +170,182 @@ Theorem C12_link_scope11_nonneg :
   forall (sn : R) m (bpr : R) et, 0 <= bpr -> 0 <= @X.scope11_mode RNum sn (@afr RNum m) bpr et.
 Proof. intros. destruct C12_link_scope11_is_model as [_ E]. rewrite E. apply scope11_mode_nonneg. assumption. Qed.
 Print Assumptions C12_link_scope11_nonneg.
+
+(* ---- atmosphere helpers and the per-trajectory atmospheric state ---------------------------------------------- *)
+Theorem C12_link_atmos_state :
+  (forall h tas : R, @X.atmos_state_init RNum h tas = @atmos_state RNum h tas) /\
+  (* the state pressure inverts back to the altitude, at every altitude *)
+  (forall h tas : R, let '(Ts, Ps, Ms) := @X.atmos_state_init RNum h tas in @isa_altitude RNum Ps = h) /\
+  (* above the tropopause: constant temperature, pressure strictly below the tropopause value and strictly falling *)
+  (forall h tas : R, @c_htrop RNum < h ->
+     let '(Ts, Ps, Ms) := @X.atmos_state_init RNum h tas in
+     Ts = @c_T0 RNum + @c_beta RNum * @c_htrop RNum /\ Ps < @isa_ptrop RNum) /\
+  (forall h1 h2 tas : R, @c_htrop RNum < h1 -> h1 < h2 ->
+     snd (fst (@X.atmos_state_init RNum h2 tas)) < snd (fst (@X.atmos_state_init RNum h1 tas))).
+Proof.
+  destruct C12_link_isa_is_model as (ET & EP & _). destruct C12_link_constants as (_ & _ & _ & E4 & E5 & _).
+  assert (E : forall h tas : R, @X.atmos_state_init RNum h tas = @atmos_state RNum h tas).
+  { intros. unfold X.atmos_state_init, atmos_state. rewrite ET, EP, E4, E5. reflexivity. }
+  split; [exact E | split; [ | split]]; intros.
+  - rewrite E. unfold atmos_state. apply isa_altitude_of_pressure.
+  - rewrite E. unfold atmos_state. apply isa_stratosphere. assumption.
+  - rewrite !E. unfold atmos_state. simpl. apply isa_stratosphere_decreasing; assumption. Qed.
+Print Assumptions C12_link_atmos_state.
+
+Theorem C12_link_atmos_helpers :
+  (forall Tk : R, @X.calculate_speed_of_sound RNum Tk = sqrt (7 / 5 * (5741 / 20) * Tk)) /\
+  (forall h : R, @X.speed_of_sound_at_altitude RNum h = @X.calculate_speed_of_sound RNum (@isa_temperature RNum h)) /\
+  (forall p Tk : R, @X.calculate_air_density RNum p Tk = p / (@c_R RNum * Tk)) /\
+  (* ideal gas: rho R T = p *)
+  (forall p Tk : R, 0 < Tk -> @X.calculate_air_density RNum p Tk * (@c_R RNum * Tk) = p).
+Proof. destruct C12_link_isa_is_model as (ET & _). destruct C12_link_constants as (_ & _ & _ & E4 & _).
+  split; [ | split; [ | split]]; intros.
+  - unfold X.calculate_speed_of_sound. rn. reflexivity.
+  - unfold X.speed_of_sound_at_altitude. rewrite ET. reflexivity.
+  - unfold X.calculate_air_density. rewrite E4. rn. reflexivity.
+  - unfold X.calculate_air_density. rewrite E4. pose proof c_R_pos. asR (@c_R RNum) r. rn. field. split; lra. Qed.
+Print Assumptions C12_link_atmos_helpers.
+
+(* ---- MEEM: every elementwise statement of PMnvol_MEEM = the corresponding piece of the model ----------------- *)
+Theorem C12_link_meem_pieces :
+  (forall r : R, @X.meem_eta RNum r = @meem_eta_rate RNum r) /\
+  (forall h hmax : R, @X.meem_lin RNum h hmax = @meem_lin RNum hmax h) /\
+  (forall r l : R, @X.meem_pc RNum r l = @meem_pc_rate RNum r l) /\
+  (forall Ta M : R, @X.meem_Tt RNum Ta M = @meem_Tt RNum Ta M) /\
+  (forall P M : R, @X.meem_Pt RNum P M = @meem_Pt RNum P M) /\
+  (forall P M pc pr : R, @X.meem_P3 RNum (@meem_Pt RNum P M) pc pr = @meem_P3 RNum P M pc pr) /\
+  (forall Ta P M pc pr eta : R,
+     @X.meem_T3 RNum (@meem_Tt RNum Ta M) eta (@meem_P3 RNum P M pc pr) (@meem_Pt RNum P M) = @meem_T3 RNum Ta P M pc pr eta) /\
+  (forall T3 eta : R, @X.meem_P3ref RNum T3 eta = @meem_P3ref RNum T3 eta) /\
+  (forall p3r pr : R, @X.meem_F RNum p3r pr = @meem_F RNum p3r pr) /\
+  (forall ref P3 P3r : R, @X.meem_EI_mass RNum ref P3 P3r = @meem_adjust RNum ref P3 P3r) /\
+  (forall rn em rm : R, @X.meem_EI_num RNum rn em rm = @meem_number RNum rn em rm).
+Proof. destruct C12_link_constants as (E1 & E2 & _ & _ & E5 & _).
+  split; [ | split; [ | split; [ | split; [ | split; [ | split; [ | split; [ | split; [ | split; [ | split]]]]]]]]]; intros.
+  - unfold X.meem_eta, meem_eta_rate. rn. replace (0 / 1) with 0 by lra. reflexivity.
+  - unfold X.meem_lin, meem_lin. rn. reflexivity.
+  - unfold X.meem_pc, meem_pc_rate. rn. replace (0 / 1) with 0 by lra. reflexivity.
+  - unfold X.meem_Tt, meem_Tt, meem_stag. rewrite E5. unfold npow_nat. rn. eqr.
+  - unfold X.meem_Pt, meem_Pt, meem_stag. rewrite E5. unfold npow_nat. rn. eqr.
+  - unfold X.meem_P3, meem_P3. rn. reflexivity.
+  - unfold X.meem_T3, meem_T3. rewrite E5. rn. reflexivity.
+  - unfold X.meem_P3ref, meem_P3ref. rewrite E1, E2, E5. rn. reflexivity.
+  - unfold X.meem_F, meem_F. rewrite E2. rn. reflexivity.
+  - unfold X.meem_EI_mass, meem_adjust. rn. reflexivity.
+  - unfold X.meem_EI_num, meem_number. rn. reflexivity. Qed.
+Print Assumptions C12_link_meem_pieces.
+
+Theorem C12_link_meem_tables :
+  @X.meem_GMD_mode RNum = map (@gmd_mode RNum) all_modes /\ @X.meem_AFR_mode RNum = map (@afr RNum) all_modes /\
+  (forall (v : tm) (vmax : R), @X.meem_tgrid_0 RNum = map fst (@meem_grid RNum v vmax NoMax) /\
+                               @X.meem_tgrid_1 RNum = map fst (@meem_grid RNum v vmax Max575) /\
+                               @X.meem_tgrid_2 RNum = map fst (@meem_grid RNum v vmax Max925) /\
+                               @X.meem_t_GMD RNum = map fst (@meem_grid RNum v vmax NoMax)).
+Proof. split; [reflexivity | split; [reflexivity | ]]. intros [[[a0 a1] a2] a3] vmax. repeat split; reflexivity. Qed.
+Print Assumptions C12_link_meem_tables.
+
+Theorem C12_link_meem_reconstruction :
+  (forall (sn : R) m (bpr : R) et,
+     @X.meem_recon_mass RNum sn (@afr RNum m) bpr et =
+     @meem_recon_mass RNum sn m (if String.eqb et "MTF" then bpr else @zero RNum)) /\
+  (forall (mv : R) m, @X.meem_recon_num RNum mv (@gmd_mode RNum m) = @meem_recon_num RNum mv m).
+Proof. split; intros.
+  - unfold X.meem_recon_mass, meem_recon_mass, scope11_cbc, scope11_kslm. destruct (String.eqb et "MTF"); rn;
+    replace (0 / 1) with 0 by lra; reflexivity.
+  - unfold X.meem_recon_num, meem_recon_num, c_pi. rn. reflexivity. Qed.
+Print Assumptions C12_link_meem_reconstruction.
+
+(* the laws, restated on the extracted text *)
+Theorem C12_link_meem_laws :
+  (forall k ref P3 P3r : R, @X.meem_EI_mass RNum (k * ref) P3 P3r = k * @X.meem_EI_mass RNum ref P3 P3r) /\
+  (forall ref P3 P3r : R, 0 < ref -> 0 < @X.meem_EI_mass RNum ref P3 P3r) /\
+  (forall rn ref P3 P3r : R, 0 < ref ->
+     @X.meem_EI_num RNum rn (@X.meem_EI_mass RNum ref P3 P3r) ref =
+     rn * (@npow RNum (P3 / P3r) (@q RNum 27 20) * @npow RNum (@q RNum 11 10) (@q RNum 5 2))) /\
+  (forall P M pc pr : R, 0 < P -> 0 <= pc -> 1 < pr -> 0 < @X.meem_P3 RNum (@X.meem_Pt RNum P M) pc pr) /\
+  (forall T3 eta : R, 0 < @X.meem_P3ref RNum T3 eta).
+Proof. destruct C12_link_meem_pieces as (_ & _ & _ & _ & EPt & EP3 & _ & EP3r & _ & EM & EN).
+  split; [ | split; [ | split; [ | split]]]; intros.
+  - rewrite !EM. apply meem_adjust_scales.
+  - rewrite EM. apply meem_adjust_pos. assumption.
+  - rewrite EM, EN. unfold meem_number. apply meem_number_index. assumption.
+  - rewrite EPt, EP3. apply meem_P3_pos; assumption.
+  - rewrite EP3r. apply meem_P3ref_pos. Qed.
+Print Assumptions C12_link_meem_laws.
+
+Import PrimFloat.
+(* ================================================================================================ *)
+(* binary64 side: the extracted text and the hand model EVALUATE to the same doubles on a fixed,       *)
+(* stated table of inputs.  This is a test executed by the kernel (vm_compute), not a theorem for all   *)
+(* inputs; the full-range binary64 tie is the per-run correspondence of harness/c12.py.                *)
+(* ================================================================================================ *)
+Definition tab_h : list PrimFloat.float := [(0x0.0p+0)%float; (0x1.c933333333333p+9)%float; (0x1.3880000000000p+12)%float; (0x1.57bffdf3b645ap+13)%float; (0x1.57c0000000000p+13)%float; (0x1.57c0020c49ba6p+13)%float; (0x1.d4c0000000000p+13)%float; (0x1.3882000000000p+14)%float; (0x1.86a0000000000p+14)%float].
+Definition tab_p : list PrimFloat.float := [(0x1.8bcd000000000p+16)%float; (0x1.a607ccccccccdp+15)%float; (0x1.61a0290eaa6cdp+14)%float; (0x1.61a028f5c28f6p+14)%float; (0x1.7864ccccccccdp+13)%float; (0x1.3713333333333p+11)%float].
+Definition tab_amb : list (PrimFloat.float * PrimFloat.float) := [((0x1.2026666666666p+8)%float, (0x1.8bcd000000000p+16)%float); ((0x1.ff4cccccccccdp+7)%float, (0x1.a607ccccccccdp+15)%float); ((0x1.b14cccccccccdp+7)%float, (0x1.61a028f5c28f6p+14)%float); ((0x1.b14cccccccccdp+7)%float, (0x1.562e666666666p+12)%float); ((0x1.cc00000000000p+7)%float, (0x1.d4c0000000000p+14)%float); ((0x1.2d4cccccccccdp+8)%float, (0x1.82b8000000000p+16)%float)].
+Definition tab_ff : list PrimFloat.float := [(0x0.0p+0)%float; (-0x1.0000000000000p-1)%float; (0x1.47ae147ae147bp-7)%float; (0x1.acd9e83e425afp-4)%float; (0x1.3333333333333p-2)%float; (0x1.c3bcd35a85879p-1)%float; (0x1.8000000000000p+0)%float; (0x1.6000000000000p+1)%float].
+Definition tab_cal : list (PrimFloat.float * PrimFloat.float * PrimFloat.float * PrimFloat.float) := [((0x1.999999999999ap-3)%float, (0x1.3333333333333p-1)%float, (0x1.8000000000000p+0)%float, (0x1.0000000000000p+1)%float); ((0x1.999999999999ap-2)%float, (0x1.999999999999ap-2)%float, (0x1.3333333333333p+0)%float, (0x1.ccccccccccccdp+0)%float); ((0x1.0000000000000p+0)%float, (0x1.3333333333333p-2)%float, (0x1.3333333333333p-2)%float, (0x1.0000000000000p+1)%float); ((0x1.0000000000000p-1)%float, (0x1.0000000000000p-1)%float, (0x1.0000000000000p-1)%float, (0x1.0000000000000p-1)%float)].
+Definition tab_sox : list (PrimFloat.float * PrimFloat.float) := [((0x1.2c00000000000p+9)%float, (0x1.47ae147ae147bp-6)%float); ((0x0.0p+0)%float, (0x0.0p+0)%float); ((0x1.34a0000000000p+10)%float, (0x1.7ae147ae147aep-2)%float); ((0x1.7700000000000p+11)%float, (0x1.0000000000000p+0)%float)].
+Definition tab_ffm2 : list (PrimFloat.float * float * PrimFloat.float * PrimFloat.float * PrimFloat.float) := [((0x1.ccccccccccccdp-1)%float, (0x1.61a028f5c28f6p+14)%float, (0x1.b14cccccccccdp+7)%float, (0x1.8f5c28f5c28f6p-1)%float, (0x1.0000000000000p+1)%float); ((0x0.0p+0)%float, (0x1.8bcd000000000p+16)%float, (0x1.2026666666666p+8)%float, (0x0.0p+0)%float, (0x1.0000000000000p+1)%float); ((0x1.199999999999ap+1)%float, (0x1.a607ccccccccdp+15)%float, (0x1.ff4cccccccccdp+7)%float, (0x1.0000000000000p-1)%float, (0x1.0000000000000p+2)%float); ((0x1.199999999999ap+0)%float, (0x1.3713333333333p+11)%float, (0x1.b14cccccccccdp+7)%float, (0x1.e666666666666p-1)%float, (0x1.0000000000000p+0)%float)].
+Definition tab_line : list (PrimFloat.float * PrimFloat.float * PrimFloat.float) := [((-0x1.0000000000000p-1)%float, (-0x1.3333333333333p-2)%float, (0x1.6666666666666p+0)%float); ((0x1.999999999999ap-4)%float, (0x1.0000000000000p-2)%float, (0x1.3333333333333p+0)%float); ((-0x1.0000000000000p+1)%float, (0x0.0p+0)%float, (0x1.ccccccccccccdp-1)%float)].
+Definition tab_thr : list PrimFloat.float := [(0x0.0p+0)%float; (0x1.4000000000000p+2)%float; (0x1.c000000000000p+2)%float; (0x1.2800000000000p+4)%float; (0x1.e000000000000p+4)%float; (0x1.c800000000000p+5)%float; (0x1.5400000000000p+6)%float; (0x1.8c00000000000p+6)%float; (0x1.9000000000000p+6)%float; (0x1.e000000000000p+6)%float].
+Definition tab_sn : list PrimFloat.float := [(-0x1.0000000000000p+0)%float; (0x0.0p+0)%float; (0x1.999999999999ap-2)%float; (0x1.883126e978d50p+1)%float; (0x1.9000000000000p+3)%float; (0x1.4000000000000p+5)%float; (0x1.6800000000000p+5)%float].
+Definition tab_rate : list PrimFloat.float := [(-0x1.e000000000000p+6)%float; (0x0.0p+0)%float; (0x1.5e80000000000p+8)%float].
+Definition tab_alt : list (PrimFloat.float * PrimFloat.float) := [((0x1.f400000000000p+9)%float, (0x1.57c0000000000p+13)%float); ((0x1.7700000000000p+11)%float, (0x1.57c0000000000p+13)%float); ((0x1.f400000000000p+12)%float, (0x1.7700000000000p+13)%float); ((0x1.f400000000000p+9)%float, (0x1.3880000000000p+11)%float); ((0x1.7700000000000p+13)%float, (0x1.7700000000000p+13)%float)].
+Definition tab_mach : list PrimFloat.float := [(0x0.0p+0)%float; (0x1.3333333333333p-2)%float; (0x1.8f5c28f5c28f6p-1)%float; (0x1.ccccccccccccdp-1)%float].
+
+Definition uncurry2 {A B C} (f : A -> B -> C) (p : A * B) : C := f (fst p) (snd p).
+Definition cal4 {A} (f : float -> float -> float -> float -> A) (c : float * PrimFloat.float * PrimFloat.float * PrimFloat.float) : A :=
+  let '(a, b, c', d) := c in f a b c' d.
+
+Theorem C12_link_binary64_evaluation_table :
+  (* ISA + atmospheric state *)
+  map (@X.temperature_at_altitude_isa_bada4 FNum) tab_h = map (@isa_temperature FNum) tab_h /\
+  map (@X.pressure_at_altitude_isa_bada4 FNum) tab_h = map (@isa_pressure FNum) tab_h /\
+  map (@X.altitude_from_pressure_isa_bada4 FNum) tab_p = map (@isa_altitude FNum) tab_p /\
+  map (fun h => @X.atmos_state_init FNum h (0x1.cc00000000000p+7)%float) tab_h = map (fun h => @atmos_state FNum h (0x1.cc00000000000p+7)%float) tab_h /\
+  (* SOx, FFM2 (with the extracted default arguments), thrust categories *)
+  map (uncurry2 (@X.EI_SOx FNum)) tab_sox = map (uncurry2 (@sox FNum)) tab_sox /\
+  map (fun x => let '(ff, P, Ta, M, n) := x in
+         @X.get_SLS_equivalent_fuel_flow FNum ff P Ta M (@X.sls_default_z FNum) (@X.sls_default_P_SL FNum) (@X.sls_default_T_SL FNum) n) tab_ffm2
+    = map (fun x => let '(ff, P, Ta, M, n) := x in @ffm2_std FNum ff P Ta M n) tab_ffm2 /\
+  map (fun c => map (fun ff => cal4 (@X.get_thrust_cat_cruise FNum ff) c) tab_ff) tab_cal
+    = map (fun c => map (fun ff => @thrust_cat FNum ff c) tab_ff) tab_cal /\
+  (* NOx pieces, speciation, HC/CO cruise factor *)
+  map (@X.nox_clamp_cal FNum) tab_ff = map (@clamp_ff FNum) tab_ff /\
+  map (@X.nox_clamp_eval FNum) tab_ff = map (@clamp_ff FNum) tab_ff /\
+  map (fun f => @X.nox_log FNum (@X.nox_clamp_eval FNum f)) tab_ff = map (fun f => @log10 FNum (@clamp_ff FNum f)) tab_ff /\
+  map (fun x => let '(a, b, c) := x in @X.nox_line FNum a b c) tab_line
+    = map (fun x => let '(a, b, c) := x in @pow10 FNum (a * b + c)%float) tab_line /\
+  map (fun x => @X.nox_ambient FNum (fst x) (snd x) (0x1.4p+4)%float) tab_amb
+    = map (fun x => (0x1.4p+4 * @nox_ambient_factor FNum (fst x) (snd x))%float) tab_amb /\
+  (let '(pno, pno2, phono) := @X.NOx_speciation FNum in
+   map (fun m => (@tget FNum pno m, @tget FNum pno2 m, @tget FNum phono m)) all_modes) = map (@speciation FNum) all_modes /\
+  map (uncurry2 (@X.hcco_cruise_factor FNum)) tab_amb = map (uncurry2 (@hcco_cruise FNum)) tab_amb /\
+  (* volatile PM, SCOPE11 *)
+  map (@X.EI_PMvol_FuelFlow FNum 1%float) all_modes = map (@pmvol_fuelflow FNum) all_modes /\
+  map (fun t => @X.EI_PMvol_FOA3 FNum t (0x1.8p+1)%float) tab_thr = map (fun t => @pmvol_foa3 FNum t (0x1.8p+1)%float) tab_thr /\
+  map (fun et => map (fun m => map (fun sn => @X.scope11_mode FNum sn (@afr FNum m) (0x1.4p+2)%float et) tab_sn) all_modes) ["MTF"; "TF"; "TP"]%string
+    = map (fun et => map (fun m => map (fun sn => @scope11_mode FNum sn m (0x1.4p+2)%float et) tab_sn) all_modes) ["MTF"; "TF"; "TP"]%string /\
+  (* MEEM pieces *)
+  map (@X.meem_eta FNum) tab_rate = map (@meem_eta_rate FNum) tab_rate /\
+  map (fun x => @X.meem_lin FNum (fst x) (snd x)) tab_alt = map (fun x => @meem_lin FNum (snd x) (fst x)) tab_alt /\
+  map (fun r => map (fun x => @X.meem_pc FNum r (@X.meem_lin FNum (fst x) (snd x))) tab_alt) tab_rate
+    = map (fun r => map (fun x => @meem_pc_rate FNum r (@meem_lin FNum (snd x) (fst x))) tab_alt) tab_rate /\
+  map (fun M => map (fun x => (@X.meem_Tt FNum (fst x) M, @X.meem_Pt FNum (snd x) M)) tab_amb) tab_mach
+    = map (fun M => map (fun x => (@meem_Tt FNum (fst x) M, @meem_Pt FNum (snd x) M)) tab_amb) tab_mach /\
+  map (fun M => map (fun x =>
+         let Pt := @X.meem_Pt FNum (snd x) M in let P3 := @X.meem_P3 FNum Pt (0x1.e666666666666p-1)%float (0x1.9p+4)%float in
+         let T3 := @X.meem_T3 FNum (@X.meem_Tt FNum (fst x) M) (0x1.c28f5c28f5c29p-1)%float P3 Pt in
+         let P3r := @X.meem_P3ref FNum T3 (0x1.c28f5c28f5c29p-1)%float in
+         (P3, T3, P3r, @X.meem_F FNum P3r (0x1.9p+4)%float, @X.meem_EI_mass FNum (0x1.4p+3)%float P3 P3r,
+          @X.meem_EI_num FNum (0x1.c6bf52634p+49)%float (@X.meem_EI_mass FNum (0x1.4p+3)%float P3 P3r) (0x1.4p+3)%float)) tab_amb) tab_mach
+    = map (fun M => map (fun x =>
+         let '(P3, P3r, F) := @meem_thermo FNum (0x1.9p+4)%float (0x1.e666666666666p-1)%float (0x1.c28f5c28f5c29p-1)%float (fst x) (snd x) M in
+         (P3, @meem_T3 FNum (fst x) (snd x) M (0x1.e666666666666p-1)%float (0x1.9p+4)%float (0x1.c28f5c28f5c29p-1)%float, P3r, F,
+          @meem_adjust FNum (0x1.4p+3)%float P3 P3r,
+          @meem_number FNum (0x1.c6bf52634p+49)%float (@meem_adjust FNum (0x1.4p+3)%float P3 P3r) (0x1.4p+3)%float)) tab_amb) tab_mach /\
+  map (fun et => map (fun m => map (fun sn => @X.meem_recon_mass FNum sn (@afr FNum m) (0x1.4p+2)%float et) tab_sn) all_modes) ["MTF"; "TF"]%string
+    = map (fun et => map (fun m => map (fun sn => @meem_recon_mass FNum sn m (if String.eqb et "MTF" then (0x1.4p+2)%float else 0)%float) tab_sn) all_modes) ["MTF"; "TF"]%string /\
+  map (fun m => @X.meem_recon_num FNum (0x1.9p+4)%float (@gmd_mode FNum m)) all_modes = map (@meem_recon_num FNum (0x1.9p+4)%float) all_modes.
+Proof. vm_compute. repeat split. Qed.
+Print Assumptions C12_link_binary64_evaluation_table.
